@@ -432,3 +432,12 @@ Proof.
   split; [apply lookback_okb_sound; vm_compute; reflexivity|].
   vm_compute. discriminate.
 Qed.
+
+(* ------------------------------------------------------------------ single-file filesets *)
+
+Lemma single_find_ok cov s e : s < e ->
+  single_find cov s e = Some ((fst cov <? e) && (s <=? snd cov)).
+Proof. intros H. unfold single_find. replace (e - 1 <? s) with false by lia. f_equal. lia. Qed.
+
+Lemma single_find_err cov s e : e <= s -> single_find cov s e = None.
+Proof. intros H. unfold single_find. replace (e - 1 <? s) with true by lia. reflexivity. Qed.
